@@ -115,6 +115,12 @@ type Service struct {
 	// attesterDutiesMutex ensures that obtaining and scheduling attester duties
 	// is not interleaved with a refresh of those duties.
 	attesterDutiesMutex sync.Mutex
+
+	// Tracking for attestation jobs that have been started.
+	lastAttestationSlot    phase0.Slot
+	lastAttestationSlotSet bool
+	attestationsInFlight   map[phase0.Slot]struct{}
+	attestationSlotsMutex  sync.Mutex
 }
 
 // New creates a new controller.
@@ -183,6 +189,7 @@ func New(ctx context.Context, params ...Parameter) (*Service, error) {
 		bellatrixForkEpoch:            bellatrixForkEpoch,
 		capellaForkEpoch:              capellaForkEpoch,
 		pendingAttestations:           make(map[phase0.Slot]bool),
+		attestationsInFlight:          make(map[phase0.Slot]struct{}),
 	}
 
 	// Subscribe to head events.  This allows us to go early for attestations if a block arrives, as well as
